@@ -34,7 +34,7 @@ CHECKS = {
         "Tie: processLine, processFile (real code via hooks) and every directive pattern of regex/definitions.go alone vs the compiled model on pattern-directed line material, byte-exact; format / format --check binary on sandbox trees (format twice, format then check, headers, trailing lines, CRLF).",
    design="§7 C09", technique="Lean 4 proof (re-emission lemmas per directive, list induction, scan/unlines round trip) + differential correspondence with the Go code"),
  "C10": dict(
-   text="PARTIAL (per-line theorems proved; their lift through include expansion and the assembler to `generate(format b) = generate b` is checked, not proved). Lean theorems for every line and indentation level: C10_view_preserved (every recogniser the parser consults — blank, comment, definition, include, include-except, flags, prefix, suffix — answers on the formatted line exactly as on the original, and plain text is identical; built on the re-emission lemmas of C09 and on C03_classification_unambiguous), C10_parser_step_same (hence parseLines takes the same step: same state or same error, for every parser state, include tree and continuation), C10_block_start_same (a block start stays text for the parser and the assembler reads the same processor name and argument word), C10_lines_pointwise / C10_file_lines (formatting is one line for one line, in order: nothing dropped, duplicated or reordered; the file is header + formatted lines − trailing empties), C09_error_writes_nothing. Known finding D23 (dangling `--` dropped) proved as a fact of the model. NOT proved: white space is the only thing that changes inside a re-emitted directive line (checked by the oracle). "
+   text="PARTIAL (per-line theorems proved; their lift through include expansion and the assembler to `generate(format b) = generate b` is checked, not proved). Lean theorems for every line and indentation level: C10_view_preserved (every recogniser the parser consults — blank, comment, definition, include, include-except, flags, prefix, suffix — answers on the formatted line exactly as on the original, and plain text is identical; built on the re-emission lemmas of C09 and on C03_classification_unambiguous), C10_parser_step_same (hence parseLines takes the same step: same state or same error, for every parser state, include tree and continuation), C10_block_start_same (a block start stays text for the parser and the assembler reads the same processor name and argument word), C10_lines_pointwise / C10_file_lines (formatting is one line for one line, in order: nothing dropped, duplicated or reordered; the file is header + formatted lines − trailing empties), C10_white_space_only (the formatted line has the same non-white-space characters in the same order as the original, for every line that does not end in a dangling `--`; built on a decomposition lemma per recogniser), C09_error_writes_nothing. Known finding D23 (dangling `--` dropped) proved as a fact of the model. "
         "Tie: processLine / processFile / Parse(formatOnly) vs the compiled model; oracle on the real binary: generate before and after format (same regex or same failure), sequence of lines with white space removed, on pattern-directed .ra material incl. commented-out directives, unbalanced markers, unusual spacing.",
    design="§7 C10", technique="Lean 4 proof (per-line view preservation via re-emission and disjointness of recognisers; pointwise line relation) + differential correspondence + generate-before/after oracle"),
  "C14": dict(
